@@ -224,3 +224,18 @@ Theorem c10_hash_unequal_keys_refuted :
     snd r = [[(e_key e, mkC [1] [] []); (e_key e, mkC [1] [] [])]].
 Proof. exact stored_hashes_need_equality. Qed.
 Print Assumptions c10_hash_unequal_keys_refuted.
+
+(* ---------------------------------------------------------------- schedule independence without timers *)
+From MV Require Import C10.Untimed.
+
+(* When the flush interval never elapses (no timed flush, no timeout label), under EVERY interleaving the
+   calls made on the inner sink are exactly the first n messages sent, in order (plus the final flush once
+   the thread has returned): the emitted batches do not depend on the schedule. *)
+Theorem c10_worker_untimed_deterministic : forall h sh t0 ls s,
+  forallb untimed ls = true -> wrun true h sh (w_init t0) ls = Some s ->
+  exists n,
+    w_trace s = map tev_of_msg (firstn n (w_sent s)) ++ (if w_exited s then [TFlushTimed] else []) /\
+    n = length (tev_msgs (w_trace s)) /\
+    w_inner s = sink_run h sh t0 (map tev_op (w_trace s)).
+Proof. exact worker_untimed_deterministic. Qed.
+Print Assumptions c10_worker_untimed_deterministic.
